@@ -33,12 +33,15 @@ let parse_op (s : string) : op =
     let latarg () = let k = int () in if k = -2 then LatNew else LatOf (nat_of_int k) in
     let latopt () = let k = int () in if k = -1 then None else if k = -2 then Some LatNew else Some (LatOf (nat_of_int k)) in
     let cflag () = match int () with 0 -> CNone | 1 -> CTrue | _ -> CFalse in
+    let pay () = let e = z () in let l = z () in let x = z () in let o = z () in { p_elem = e; p_label = l; p_xyz = x; p_occ = o } in
+    let col () = match int () with 0 -> ColElem | 1 -> ColLabel | 2 -> ColXyz | _ -> ColOcc in
+    let colopt () = let k = int () in if k < 0 then None else Some (match k with 0 -> ColElem | 1 -> ColLabel | 2 -> ColXyz | _ -> ColOcc) in
     let r =
       match name with
       | "NewStruct" -> NewStruct
-      | "NewList" -> NewList (many z)
+      | "NewList" -> NewList (many pay)
       | "ListOf" -> ListOf (many aref)
-      | "AddNewAtom" -> let h = nat () in let t = z () in AddNewAtom (h, t)
+      | "AddNewAtom" -> let h = nat () in let t = pay () in AddNewAtom (h, t)
       | "Construct" -> let h = nat () in let l = latopt () in Construct (h, l)
       | "Append" -> let h = nat () in let r = aref () in let c = bool () in Append (h, r, c)
       | "Insert" -> let h = nat () in let i = z () in let r = aref () in let c = bool () in Insert (h, i, r, c)
@@ -69,7 +72,12 @@ let parse_op (s : string) : op =
       | "Pickle" -> let h = nat () in let hi = bool () in Pickle (h, hi)
       | "DeepCopy" -> DeepCopy (nat ())
       | "Tolist" -> Tolist (nat ())
-      | "SetCol" -> let h = nat () in let t = many z in SetCol (h, t)
+      | "SetCol" -> let h = nat () in let c = col () in let t = many z in SetCol (h, c, t)
+      | "Sort" -> let h = nat () in let k = colopt () in let r = bool () in Sort (h, k, r)
+      | "AssignUniqueLabels" -> AssignUniqueLabels (nat ())
+      | "GetLast" -> GetLast (nat ())
+      | "GetCol" -> let h = nat () in let c = col () in GetCol (h, c)
+      | "Composition" -> Composition (nat ())
       | _ -> raise (Bad ("unknown op " ^ name)) in
     if !pos <> Array.length a then raise (Bad ("too many arguments: " ^ s));
     r
@@ -78,6 +86,7 @@ let show_outcome = function
   | Done RNone -> "done none"
   | Done (RAtom a) -> Printf.sprintf "done atom %d" (int_of_nat a)
   | Done (RObj h) -> Printf.sprintf "done obj %d" (int_of_nat h)
+  | Done (RVals l) -> "done vals " ^ String.concat " " (List.map (fun v -> string_of_int (int_of_z v)) l)
   | Raised EIndex -> "raise IndexError"
   | Raised EValue -> "raise ValueError"
   | Raised EType -> "raise TypeError"
@@ -91,7 +100,7 @@ let show_world (w : world) =
       | OStruct (its, l) -> Printf.sprintf "S %d %s" (int_of_nat l) (show_items its)
       | OList its -> Printf.sprintf "L %s" (show_items its)) w.objs) in
   let h = String.concat " " (List.map (fun c ->
-      Printf.sprintf "%d:%s" (int_of_z c.c_tag) (match c.c_lat with None -> "N" | Some l -> string_of_int (int_of_nat l))) w.heap) in
+      Printf.sprintf "%d,%d,%d,%d:%s" (int_of_z c.c_tag.p_elem) (int_of_z c.c_tag.p_label) (int_of_z c.c_tag.p_xyz) (int_of_z c.c_tag.p_occ) (match c.c_lat with None -> "N" | Some l -> string_of_int (int_of_nat l))) w.heap) in
   Printf.sprintf "G %d %d;O %s;H %s" (if w.g_repoint then 1 else 0) (if w.g_dup then 1 else 0) o h
 
 let () =
